@@ -118,6 +118,12 @@ func (w *W) maxLen(s Str) int {
 	if s.Off.IsConst() {
 		n -= int(s.Off.Val)
 	}
+	// the interval domain may know a tighter bound (e.g. a slice cut to a window)
+	if w.rmemo != nil {
+		if r := w.rangeOf(s.Len); r.hi < uint64(n) {
+			n = int(r.hi)
+		}
+	}
 	return n
 }
 
@@ -133,14 +139,25 @@ func (w *W) strByte(s Str, idx *Term) *Term {
 		return w.baseByte(s.B, k)
 	}
 	n := s.B.size()
-	if n > maxSymIndexWidth {
-		unsupp("symbolic index into string of %d positions", n)
-	}
 	if n == 0 {
 		return w.ts.BV(8, 0)
 	}
-	res := w.baseByte(s.B, n-1)
-	for k := n - 2; k >= 0; k-- {
+	// positions the index can take according to the interval domain
+	lo, hi := 0, n-1
+	if w.rmemo != nil {
+		r := w.rangeOf(abs)
+		if r.lo > uint64(lo) && r.lo <= uint64(hi) {
+			lo = int(r.lo)
+		}
+		if r.hi < uint64(hi) {
+			hi = int(r.hi)
+		}
+	}
+	if hi-lo+1 > maxSymIndexWidth {
+		unsupp("symbolic index into string over %d positions", hi-lo+1)
+	}
+	res := w.baseByte(s.B, hi)
+	for k := hi - 1; k >= lo; k-- {
 		res = w.ts.Ite(w.ts.Eq(abs, w.ts.Int64(int64(k))), w.baseByte(s.B, k), res)
 	}
 	return res
